@@ -36,6 +36,7 @@ def main():
                 print('%s %s SKIP (revert conflicts)' % (prop, commit))
                 continue
             s = sh('cd %s && /venv/bin/python -m pytest -q -x -p no:cacheprovider --timeout=300 2>&1 | tail -1' % wt, timeout=900)
+            sh("pkill -f '%s/supp/server.py'" % wt)      # a server started by tests/test_remote.py may not exit on its own on a broken tree
             r = sh('cd %s && ./check %s' % (HERE, prop), env=dict(os.environ, SUPP_REPO=wt), timeout=3600)
             viol = [x for x in r.stdout.splitlines() if x.startswith('VIOLATION')]
             ok = r.returncode == 1 and bool(viol)
